@@ -96,7 +96,7 @@ def ob_key(unit, rec):
     return oid.split('@')[0]
 
 
-def load_known():
+def load_known(all_status=True):
     path = os.path.join(VERIF, 'known_findings.jsonl')
     res = []
     if os.path.exists(path):
@@ -215,11 +215,25 @@ def write_replay(prop, unit, rec, oid, res):
     os.makedirs(REPLAY_DIR, exist_ok=True)
     h = hashlib.sha1(oid.encode()).hexdigest()[:10]
     path = os.path.join(REPLAY_DIR, '%s-%s.json' % (prop, h))
-    body = dict(property=prop, obligation=oid, key=ob_key(unit, rec), kind=rec['kind'],
+    key = ob_key(unit, rec)
+    witness, note = None, 'Verus gives no counterexample; no concrete failing input was found for this obligation.'
+    try:
+        from . import replay as _replay
+        names = _replay.scenarios_for(load_known(all_status=True), key)
+        if names:
+            runs = _replay.run_scenarios(names)
+            hit = [r for r in runs if r['rc'] == 1]
+            if hit:
+                witness = hit
+                note = 'Verus gives no counterexample; the scenario(s) recorded for this obligation reproduce the failure on the real library.'
+            else:
+                note += ' Scenarios %s were run against the real library and did not fail.' % ', '.join(names)
+    except Exception as e:  # replay is best effort
+        note += ' (replay not run: %r)' % (e,)
+    body = dict(property=prop, obligation=oid, key=key, kind=rec['kind'],
                 function=rec['addr'], source_site=rec['src'], site_text=site_text(rec),
                 contract_site=rec['tmpl'], verifier='verus', verifier_cmd=res['cmd'],
-                verifier_output=rec['rendered'], witness=None,
-                note='Verus gives no counterexample; no concrete failing input was found for this obligation.')
+                verifier_output=rec['rendered'], witness=witness, note=note)
     json.dump(body, open(path, 'w'), indent=1)
     return path
 
@@ -364,7 +378,10 @@ def check_property(prop, tier='quick', seed=0, kani_runner=None):
             tail = '' if rec.get('witness') else ' no-failing-input-found'
         else:
             path = write_replay(prop, unit, rec, oid, res)
-            tail = ' no-failing-input-found'
+            try:
+                tail = '' if json.load(open(path)).get('witness') else ' no-failing-input-found'
+            except Exception:
+                tail = ' no-failing-input-found'
         if path in seen_paths:
             continue
         seen_paths.add(path)
